@@ -151,6 +151,24 @@ func (ctx *formatCtx) insert(name string) {
 	ctx.scope.Insert(o)
 }
 
+func (ctx *formatCtx) insertIdents(exprs ...ast.Expr) {
+	for _, e := range exprs {
+		if id, ok := e.(*ast.Ident); ok && id.Name != "_" {
+			ctx.insert(id.Name)
+		}
+	}
+}
+
+func (ctx *formatCtx) insertFields(flds *ast.FieldList) {
+	if flds != nil {
+		for _, fld := range flds.List {
+			for _, name := range fld.Names {
+				ctx.insert(name.Name)
+			}
+		}
+	}
+}
+
 func (ctx *formatCtx) enterBlock() *types.Scope {
 	old := ctx.scope
 	ctx.scope = types.NewScope(old, token.NoPos, token.NoPos, "")
@@ -172,6 +190,9 @@ func formatFile(file *ast.File) {
 		case *ast.FuncDecl:
 			// delay the process, because package level vars need to be processed first.
 			funcs = append(funcs, v)
+			if v.Recv == nil {
+				ctx.insert(v.Name.Name)
+			}
 		case *ast.GenDecl:
 			switch v.Tok {
 			case token.IMPORT:
@@ -229,7 +250,13 @@ func formatGenDecl(ctx *formatCtx, v *ast.GenDecl) {
 }
 
 func formatFuncDecl(ctx *formatCtx, v *ast.FuncDecl) {
+	old := ctx.enterBlock()
+	defer ctx.leaveBlock(old)
+
 	formatFuncType(ctx, v.Type)
+	ctx.insertFields(v.Recv)
+	ctx.insertFields(v.Type.Params)
+	ctx.insertFields(v.Type.Results)
 	formatBlockStmt(ctx, v.Body)
 }
 
